@@ -236,4 +236,126 @@ theorem eval_inv {T : List Site} (hT : sitesGuarded T = true) (P : PermissionSet
       | err => exact Inv.step ha rfl (ih body l')
     | thunk body n => exact repeatN_inv ih body n l
 
+/-! ### enough fuel: the evaluator finishes -/
+
+/-- `ev` finishes on every expression of the list -/
+def FinOn (ev : Expr → Log → Res × Log) (es : List Expr) : Prop := ∀ e ∈ es, ∀ l, (ev e l).1 ≠ .stuck
+
+theorem evalAll_fin {ev} : ∀ (args : List Expr), FinOn ev args → ∀ l, (evalAll ev args l).1 ≠ .stuck
+  | [], _, l => by simp [evalAll]
+  | a :: r, h, l => by
+    have ha := h a (by simp) l
+    have hr : FinOn ev r := fun e he => h e (by simp [he])
+    unfold evalAll
+    rcases hres : ev a l with ⟨res, l'⟩
+    rw [hres] at ha
+    cases res with
+    | viol v => simp
+    | stuck => exact absurd rfl ha
+    | val => exact evalAll_fin r hr l'
+    | err => exact evalAll_fin r hr l'
+
+theorem repeatN_fin {ev} (body : Expr) (h : ∀ l, (ev body l).1 ≠ .stuck) : ∀ n l, (repeatN ev body n l).1 ≠ .stuck
+  | 0, l => by simp [repeatN]
+  | n + 1, l => by
+    have ha := h l
+    unfold repeatN
+    rcases hres : ev body l with ⟨res, l'⟩
+    rw [hres] at ha
+    cases res with
+    | viol v => simp
+    | stuck => exact absurd rfl ha
+    | val => exact repeatN_fin body h n l'
+    | err => exact repeatN_fin body h n l'
+
+theorem runSteps_fin {ev} (P : PermissionSet) (s : Nat) (args : List Expr) (h : FinOn ev args) :
+    ∀ (steps : List Step) (l : Log), (runSteps ev P s args steps l).1 ≠ .stuck
+  | [], l => by simp [runSteps]
+  | .check p :: r, l => by
+    unfold runSteps
+    cases checkPermission P p with
+    | none => exact runSteps_fin P s args h r _
+    | some id => simp
+  | .weakCheck c :: r, l => by unfold runSteps; exact runSteps_fin P s args h r l
+  | .arg i raise :: r, l => by
+    unfold runSteps
+    cases ha : args[i]? with
+    | none => exact runSteps_fin P s args h r l
+    | some a =>
+      dsimp only
+      have hfin := h a (List.mem_of_getElem? ha) l
+      rcases hres : ev a l with ⟨res, l'⟩
+      rw [hres] at hfin
+      cases res with
+      | viol v => simp
+      | stuck => exact absurd rfl hfin
+      | val => exact runSteps_fin P s args h r l'
+      | err =>
+        cases raise with
+        | true => simp
+        | false => exact runSteps_fin P s args h r l'
+  | .effect k tok :: r, l => by unfold runSteps; exact runSteps_fin P s args h r _
+
+theorem depth_mem {a : Expr} : ∀ {es : List Expr}, a ∈ es → a.depth ≤ depthList es
+  | b :: r, h => by
+    rcases List.mem_cons.mp h with rfl | h
+    · simp only [depthList]; omega
+    · have := depth_mem h; simp only [depthList]; omega
+
+theorem sitesIn_mem {n : Nat} {a : Expr} : ∀ {es : List Expr}, sitesInList n es = true → a ∈ es → a.sitesIn n = true
+  | b :: r, hs, h => by
+    simp only [sitesInList, Bool.and_eq_true] at hs
+    rcases List.mem_cons.mp h with rfl | h
+    · exact hs.1
+    · exact sitesIn_mem hs.2 h
+
+theorem eval_fin (T : List Site) (P : PermissionSet) :
+    ∀ (f : Nat) (e : Expr) (l : Log), e.depth ≤ f → e.sitesIn T.length = true → (eval T P f e l).1 ≠ .stuck
+  | 0, e, l, hd, _ => by cases e <;> simp [Expr.depth] at hd
+  | f + 1, e, l, hd, hs => by
+    have ih := eval_fin T P f
+    unfold eval
+    cases e with
+    | lit => simp
+    | bad => simp
+    | nat s args =>
+      simp only [Expr.sitesIn, Bool.and_eq_true, decide_eq_true_eq] at hs
+      simp only [Expr.depth] at hd
+      simp only
+      have hlt : s < T.length := hs.1
+      rw [List.getElem?_eq_getElem hlt]
+      simp only
+      refine runSteps_fin P s args ?_ _ l
+      intro a ha l'
+      exact ih a l' (by have := depth_mem ha; omega) (sitesIn_mem hs.2 ha)
+    | seq a b =>
+      simp only [Expr.sitesIn, Bool.and_eq_true] at hs
+      simp only [Expr.depth] at hd
+      simp only
+      have ha := ih a l (by omega) hs.1
+      rcases hres : eval T P f a l with ⟨res, l'⟩
+      rw [hres] at ha
+      cases res with
+      | viol v => simp
+      | stuck => exact absurd rfl ha
+      | val => exact ih b l' (by omega) hs.2
+      | err => exact ih b l' (by omega) hs.2
+    | wrap args body =>
+      simp only [Expr.sitesIn, Bool.and_eq_true] at hs
+      simp only [Expr.depth] at hd
+      simp only
+      have ha := evalAll_fin (ev := eval T P f) args
+        (fun a ha l' => ih a l' (by have := depth_mem ha; omega) (sitesIn_mem hs.1 ha)) l
+      rcases hres : evalAll (eval T P f) args l with ⟨res, l'⟩
+      rw [hres] at ha
+      cases res with
+      | viol v => simp
+      | stuck => exact absurd rfl ha
+      | val => exact ih body l' (by omega) hs.2
+      | err => exact ih body l' (by omega) hs.2
+    | thunk body n =>
+      simp only [Expr.sitesIn] at hs
+      simp only [Expr.depth] at hd
+      exact repeatN_fin body (fun l' => ih body l' (by omega) hs) n l
+
 end XrayModel.Perm
